@@ -403,7 +403,7 @@ func c18StartupRun(c string) string {
 		var out string
 		for try := 0; try < 4; try++ {
 			var noise bool
-			out, noise = c18StartupOnce(m, items)
+			c18NoGC(func() string { out, noise = c18StartupOnce(m, items); return "" })
 			if !noise {
 				break
 			}
@@ -414,10 +414,11 @@ func c18StartupRun(c string) string {
 
 // c18OtterGoroutines: the `process` goroutines of otter caches (one per memory cache; it ends as soon as the
 // cache is closed — its `cleanup` sibling only notices at its next one-second tick, so it is not counted).
+var c18stackBuf = make([]byte, 1<<22)
+
 func c18OtterGoroutines() int {
-	buf := make([]byte, 1<<22)
-	n := runtime.Stack(buf, true)
-	return 2 * strings.Count(string(buf[:n]), "otter/internal/core.(*Cache[...]).process(")
+	n := runtime.Stack(c18stackBuf, true)
+	return 2 * bytes.Count(c18stackBuf[:n], []byte("otter/internal/core.(*Cache[...]).process("))
 }
 
 func c18StartupOnce(m map[string]string, items []c18item) (string, bool) {
